@@ -838,8 +838,8 @@ impl Real {
                         let b = m.serialize().unwrap().to_vec();
                         let len_ok = m.length() == b.len();
                         let rt = match EncryptedHeader::deserialize(&b) { Ok(x) => x.encapsulation == m.encapsulation && x.encrypted_metadata.clone().unwrap_or_default() == m.encrypted_metadata.clone().unwrap_or_default(), Err(_) => false };
-                        self.model_line = Some(format!("wire hdr {} x{}", crate::util::CFG, hex(&b)));
-                        if len_ok { format!("ok len={} rt={}", b.len(), rt as u8) } else { format!("ok len={}!={} rt={}", m.length(), b.len(), rt as u8) }
+                        self.model_line = Some(format!("wire hdr {} x{} {}", crate::util::CFG, hex(&b), h));
+                        if len_ok { format!("ok len={} rt={} shape=1", b.len(), rt as u8) } else { format!("ok len={}!={} rt={} shape=1", m.length(), b.len(), rt as u8) }
                     } _ => { self.model_line = Some("noop".into()); "bad-op".into() } }
                 } else if let Some(i) = handle('S', h) {
                     match self.msks.get(i) { Some(Some(m)) => { let s = &m.access_structure; ser!("struct", s, cosmian_cover_crypt::AccessStructure) } _ => { self.model_line = Some("noop".into()); "bad-op".into() } }
